@@ -340,6 +340,11 @@ BASE_DOCS = [
 JSON_VALUES = {'null': None, 'bool': True, 'int': 7, 'float': 1.5, 'str': 'text', 'list': [], 'dict': {}}
 
 
+STR_SHAPES = {'empty': '', 'digits': '12', 'neg-digits': '-3', 'double-minus': '--1', 'superscript': '\u00b2',
+              'circled': '\u2460', 'minus-only': '-', 'space-digits': ' 7', 'float-text': '1.5', 'bool-text': 'true',
+              'null-text': 'null', 'plus-digits': '+4', 'underscore-digits': '1_0'}
+
+
 def nodes_of(tree, pos='root', path=()):
     """Yield (path, node, pos) for every dict node with a <class>."""
     if isinstance(tree, dict):
@@ -387,6 +392,10 @@ def apply_fault(tree, fault, path):
             if arg == 'null':
                 return None
         node[key] = copy.deepcopy(JSON_VALUES[arg])
+    elif kind == 'retype-str':
+        if key not in node:
+            return None
+        node[key] = STR_SHAPES[arg]
     elif kind == 'delete-class':
         del node['<class>']
     elif kind == 'retag':
@@ -594,14 +603,27 @@ def check_c15(tier, seed):
 # ----------------------------------------------------------------------------------------------
 
 def env_doc(decls):
-    """Abstract document declaring each [kind, fqn] in the namespace formed by the front of its fqn."""
+    """Abstract document declaring each [kind, fqn] in the namespace formed by the front of its fqn; an enum / subint /
+    extern whose front is the fqn of an interface of the set is written as a local type of (the first) such interface."""
     toks = []
-    for dcl in decls:
+    itf_at = {}
+    for i, dcl in enumerate(decls):
+        if dcl['kind'] == 'interface':
+            itf_at.setdefault(tuple(dcl['fqn']), i)
+    local = {}
+    for i, dcl in enumerate(decls):
+        if dcl['kind'] in ('enum', 'subint', 'extern') and tuple(dcl['fqn'][:-1]) in itf_at:
+            local.setdefault(itf_at[tuple(dcl['fqn'][:-1])], []).append(i)
+    nested = {i for lst in local.values() for i in lst}
+    for i, dcl in enumerate(decls):
+        if i in nested:
+            continue
         front, last = dcl['fqn'][:-1], dcl['fqn'][-1:]
         for ident in front:
             toks.append({'t': 'open', 'ids': [ident]})
         toks.append({'t': 'decl', 'kind': dcl['kind'], 'name': dcl['fqn'] if dcl['kind'] in ('import', 'file-name') else last,
-                     'pay': 'p0', 'types': []})
+                     'pay': 'p0', 'types': [{'kind': decls[j]['kind'], 'name': decls[j]['fqn'][-1:], 'pay': 'p0'}
+                                            for j in local.get(i, [])]})
         toks.extend({'t': 'close'} for _ in front)
     return toks
 
